@@ -252,6 +252,29 @@ fn main() {
             }
         }
     }
+    // long URLs (up to and beyond the tokenizer's 127-token cut-off): rules without any index token
+    // live in the fallback bucket, which every request probes whatever its length; the precedence
+    // formula must hold there too
+    {
+        // (all four without index token: the only token of each pattern runs to the unanchored end)
+        let lines: Vec<String> = vec!["-sponsor".into(), "@@-sponso".into(), "-promo$important".into(), "@@-prom".into(), "_tracker".into()];
+        let rules: Vec<NetworkFilter> = lines.iter().filter_map(|l| parse_net(l)).collect();
+        let e = build_engine(&lines, &[], false);
+        for k in [5usize, 60, 120, 124, 126, 127, 128, 129, 160, 300] {
+            let segs: String = (0..k).map(|i| format!("s{}x", i)).collect::<Vec<_>>().join("/");
+            for tail in ["/a-sponsor/b", "/a_tracker/b", "/a-promo/b", "/a-promo-x/-sponsor", "/nothing"] {
+                let url = format!("https://h.example.com/{}{}", segs, tail);
+                let Ok(req) = adblock::request::Request::new(&url, "https://a.com/", "script") else { continue };
+                let (got, want) = (engine_verdict(&e, &req), spec_verdict(&rules, &HashSet::new(), &req));
+                sm.oracle_evaluations += 1;
+                cs.stat("long_url");
+                if got != want {
+                    sm.failure(None, &format!("URL of {} path segments: engine says {:?}, the precedence formula over the rule-by-rule hits says {:?}", k, got, want),
+                        json!({"kind": "precedence", "rules": lines, "added": [], "tags": [], "url": url, "source": "https://a.com/", "type": "script"}));
+                }
+            }
+        }
+    }
     // near twins: z' differs from y in exactly one matching-relevant aspect (one type, the party
     // option, one entry of the domain list, its sign, important, one pattern byte): z'$badfilter must
     // cancel nothing, i.e. engine(L ++ [y, z']) answers like engine(L ++ [y]).  Independent of the
